@@ -316,8 +316,6 @@ pub fn npn_canonization_res(
     panic!();
 }
 
-// TODO: handle 0 and 1 input cases, where the flip or swap list may be empty
-
 pub fn p_canonization(num_vars: usize, table: &mut [u64], best: &mut [u64], res_perm: &mut [u8]) {
     if num_vars <= 6 {
         let best_ind =
@@ -331,6 +329,16 @@ pub fn p_canonization(num_vars: usize, table: &mut [u64], best: &mut [u64], res_
 }
 
 pub fn n_canonization(num_vars: usize, table: &mut [u64], best: &mut [u64]) -> u32 {
+    if num_vars == 0 {
+        // No input to flip: only the output complementation remains
+        best.clone_from_slice(table);
+        not_inplace(num_vars, table);
+        if cmp(table, best).is_lt() {
+            best.clone_from_slice(table);
+            return 1;
+        }
+        return 0;
+    }
     if num_vars <= 6 {
         let best_ind =
             n_canonization_ind(num_vars, &mut table[0..1], &mut best[0..1], FLIPS[num_vars]);
@@ -348,6 +356,14 @@ pub fn npn_canonization(
     best: &mut [u64],
     res_perm: &mut [u8],
 ) -> u32 {
+    if num_vars <= 1 {
+        // No permutation is possible (the swap list is empty): this is an N canonization
+        assert_eq!(res_perm.len(), num_vars);
+        for i in 0..res_perm.len() {
+            res_perm[i] = i as u8;
+        }
+        return n_canonization(num_vars, table, best);
+    }
     if num_vars <= 6 {
         let best_ind = npn_canonization_ind(
             num_vars,
